@@ -228,8 +228,8 @@ def check_solution(v, manager, cf, rel, r, settings, cls, first_time):
     vmin = hyd.vMin
     vmax = min(hyd.vJ, hyd.fastestDeflag())
     eom = manager.setupWallSolver(e2e.settings_obj(settings)).eom
-    eom.pressAbsErrTol = 1e-8
     Tn = hyd.Tnucl
+    eom.pressAbsErrTol = 1e-8 * Tn ** 4  # as EOM.solveWall does
     if r.solutionType == ESolutionType.RUNAWAY:
         v.label("outcome:runaway")
         v.checked("runaway")
@@ -303,7 +303,7 @@ def check_solution(v, manager, cf, rel, r, settings, cls, first_time):
 
     v.checked("bracket")
     guess0 = WallGo.WallParams(widths=(settings["thick"] / Tn) * np.ones(cf.nf), offsets=np.zeros(cf.nf))
-    eom.pressAbsErrTol = 1e-8
+    eom.pressAbsErrTol = 1e-8 * Tn ** 4  # as EOM.solveWall does
     resMax = eom.wallPressure(vmax, copy.deepcopy(guess0))
     vmin_eff = vmin
     resMin = eom.wallPressure(vmin_eff, copy.deepcopy(guess0))
@@ -349,7 +349,7 @@ def check_solution(v, manager, cf, rel, r, settings, cls, first_time):
     #    the solver's interpolated guess: the reported state must be a fixed point of the pressure
     #    iteration and the zero of that pressure must be within the tolerance too.
     v.checked("bracket-adapted")
-    eom.pressAbsErrTol = 1e-8
+    eom.pressAbsErrTol = 1e-8 * Tn ** 4  # as EOM.solveWall does
     ratio = float(np.max(np.maximum(gin.widths / wp.widths, wp.widths / gin.widths)))
     M = manager.config.configGrid.spatialGridSize
     v.info["guess_over_converged_width"] = ratio
